@@ -108,7 +108,8 @@ def create_stub_files(
         file_path = Path(corrected_module_dir / f"{public_module_name}.sdsstub")
         Path(file_path).touch()
 
-        with file_path.open("w", encoding="utf-8") as f:
+        # String values can contain characters that can't be encoded (lone surrogates), they are written as escapes
+        with file_path.open("w", encoding="utf-8", errors="backslashreplace") as f:
             f.write(module_text)
 
         # Classes which are treated as classes from outside the package must not replace this file, they are added to it
